@@ -50,9 +50,10 @@ package varmq
 //@      && (w.status == initiated ==> w.eventLoopSignal != nil && $open(w.eventLoopSignal) && $cap(w.eventLoopSignal) >= 1 && w.errorChan != nil && $open(w.errorChan)
 //@                                     && w.$disp == 0 && w.$listeners == 0 && w.pool.List.len == 0 && w.curProcessing == 0)
 //@      && ((w.status == running || w.status == paused) ==> w.eventLoopSignal != nil && $open(w.eventLoopSignal) && $cap(w.eventLoopSignal) >= 1
-//@                                     && w.errorChan != nil && $open(w.errorChan) && w.$disp == 1 && (w.ctx != nil ==> w.$listeners == 1))
-//@      && (w.status == stopped ==> w.eventLoopSignal == nil && w.errorChan == nil && w.$disp == 0 && w.pool.List.len == 0 && w.$listeners == 0)
+//@                                     && w.errorChan != nil && $open(w.errorChan) && w.$disp == 1 && w.$listeners == (w.ctx != nil ? 1 : 0))
+//@      && (w.status == stopped ==> w.eventLoopSignal == nil && w.errorChan == nil && w.$disp == 0 && w.pool.List.len == 0 && w.$listeners == 0 && w.curProcessing == 0)
 //@      && ((w.ctx != nil) <==> (w.cancel != nil)) && ((w.ctx != nil) <==> (w.Configs.ctx != nil))
+//@      && (w.eventLoopSignal == nil || w.eventLoopSignal != w.errorChan)
 //@      && (w.$armed > 0 ==> w.status == stopped)
 
 // ---------------------------------------------------------------- small helpers
@@ -169,7 +170,7 @@ package varmq
 //@ func worker.sendToNextChannel
 //@   props C01 C03 C18
 //@   requires PoolOK(w)
-//@   modifies linkedlist.Node.next, linkedlist.Node.prev, w.pool.List.len, w.pool.List.$in, $alloc, $spawned["pool.Node.Serve"], w.$nodes, w.$dispatched, key CH:sent, key CH:rcvd, key CHV:<
+//@   modifies linkedlist.Node.next, linkedlist.Node.prev, w.pool.List.len, w.pool.List.$in, $alloc, $spawned["pool.Node.Serve"], w.$nodes, w.$dispatched, key CH:sent<, key CH:rcvd<, key CHV:<
 //@   ensures [one]   w.$dispatched == old(w.$dispatched) + 1
 //@   ensures [pool]  PoolOK(w) && (old(w.pool.List.len) > 0 ==> w.pool.List.len == old(w.pool.List.len) - 1 && w.$nodes == old(w.$nodes))
 //@   ensures [grow]  old(w.pool.List.len) == 0 ==> w.pool.List.len == 0 && w.$nodes == old(w.$nodes) + 1
@@ -179,7 +180,7 @@ package varmq
 //@ func worker.stopAndRemoveAllWorkers
 //@   props C18 C14
 //@   requires PoolOK(w)
-//@   modifies linkedlist.Node.next, linkedlist.Node.prev, w.pool.List.len, w.pool.List.$at, w.pool.List.$pos, w.pool.List.$in, $alloc, key CH:sent, key CH:rcvd, key CHV:<, key G:$poolputs
+//@   modifies linkedlist.Node.next, linkedlist.Node.prev, w.pool.List.len, w.pool.List.$at, w.pool.List.$pos, w.pool.List.$in, $alloc, key CH:sent<, key CH:rcvd<, key CHV:<, key G:$poolputs
 //@   ensures [empty] w.pool.List.len == 0 && PoolOK(w)
 //@   loop 1: invariant [range] 0 <= rangeindex + 1 && rangeindex + 1 <= len($ranged) && PoolOK(w) && w.pool.List.len == len($ranged) - (rangeindex + 1)
 //@   loop 1: invariant [rest]  forall m int :: rangeindex + 1 <= m && m < len($ranged) ==> $ranged[m] == w.pool.List.$at[m - rangeindex]
@@ -193,7 +194,7 @@ package varmq
 //@   requires PoolOK(w) && QM(w) && w.curProcessing < MaxUint32
 //@   requires forall i int :: 0 <= i && i < len(w.queues.Manager.items) ==> $lenOf(w.queues.Manager.items[i]) >= 0 && w.queues.Manager.items[i] != nil
 //@   modifies w.queues.Manager.roundRobinIndex, $lenOf, $deq, w.curProcessing, $jstatus, $jackid, $jqueue, $alloc, $spawned["pool.Node.Serve"], w.$nodes, w.$dispatched,
-//@            linkedlist.Node.next, linkedlist.Node.prev, w.pool.List.len, w.pool.List.$in, key CH:sent, key CH:rcvd, key CHV:<
+//@            linkedlist.Node.next, linkedlist.Node.prev, w.pool.List.len, w.pool.List.$in, key CH:sent<, key CH:rcvd<, key CHV:<
 //@   ensures [error]   result != nil ==> w.curProcessing == old(w.curProcessing) && w.$dispatched == old(w.$dispatched)
 //@   ensures [step]    result == nil ==> (w.$dispatched == old(w.$dispatched) + 1 && w.curProcessing == old(w.curProcessing) + 1)
 //@                                    || (w.$dispatched == old(w.$dispatched) && w.curProcessing == old(w.curProcessing))
@@ -243,7 +244,7 @@ package varmq
 //@   requires forall i int :: 0 <= i && i < len($deref(w).queues.Manager.items) ==> $deref(w).queues.Manager.items[i] != nil
 //@   modifies $chan(signal), $open(signal), $chan($deref(w).errorChan), $deref(w).queues.Manager.roundRobinIndex, $lenOf, $deq, $deref(w).curProcessing, $jstatus, $jackid, $jqueue, $alloc,
 //@            $spawned["pool.Node.Serve"], $deref(w).$nodes, $deref(w).$dispatched, linkedlist.Node.next, linkedlist.Node.prev, $deref(w).pool.List.len, $deref(w).pool.List.$in,
-//@            key CH:sent, key CH:rcvd, key CHV:<
+//@            key CH:sent<, key CH:rcvd<, key CHV:<
 //@   requires forall q ref {$lenOf(q)} :: $lenOf(q) >= 0
 //@   ensures [exit] !$open(signal)
 //@   ghost before call helpers.Manager.Len: assume forall k int {@sumLen($deref(w).queues.Manager.items, k)} :: 0 <= k && k <= len($deref(w).queues.Manager.items) ==> @sumLen($deref(w).queues.Manager.items, k) <= MaxInt
@@ -258,6 +259,136 @@ package varmq
 //@   assert [guard]       before call varmq.worker.processNextJob: $deref(w).status == running && $deref(w).curProcessing < $deref(w).concurrency
 //@                          && @sumLen($deref(w).queues.Manager.items, len($deref(w).queues.Manager.items)) > 0
 //@   assert [guard-fresh] before call varmq.worker.processNextJob: $sfresh && $cfresh && $pfresh
+//@   assert [sleep-only-when-idle] at backedge loop1: !($deref(w).status == running && $deref(w).curProcessing < $deref(w).concurrency
+//@                          && @sumLen($deref(w).queues.Manager.items, len($deref(w).queues.Manager.items)) > 0)
 //@   ghost after call varmq.worker.processNextJob: $sfresh := false
 //@   ghost after call varmq.worker.processNextJob: $cfresh := false
 //@   ghost after call varmq.worker.processNextJob: $pfresh := false
+
+// ---------------------------------------------------------------- barriers
+// The wait predicate (true = keep waiting): running: something pending or in flight; paused/stopped: something in flight; else false.
+//@ func worker.WaitUntilFinished$1
+//@   props C06
+//@   requires $deref(w) != nil && RI_Manager($addr($deref(w).queues.Manager)) && (forall q ref {$lenOf(q)} :: $lenOf(q) >= 0)
+//@   ensures [running] $deref(w).status == running ==> result == (@sumLen($deref(w).queues.Manager.items, len($deref(w).queues.Manager.items)) > 0 || $deref(w).curProcessing > 0)
+//@   ensures [parked]  ($deref(w).status == paused || $deref(w).status == stopped) ==> result == ($deref(w).curProcessing > 0)
+//@   ensures [other]   $deref(w).status == initiated ==> !result
+//@   ghost before call helpers.Manager.Len: assume forall k int {@sumLen($deref(w).queues.Manager.items, k)} :: 0 <= k && k <= len($deref(w).queues.Manager.items) ==> @sumLen($deref(w).queues.Manager.items, k) <= MaxInt
+
+// WaitUntilFinished returns only when the wait predicate is false. While it is parked other goroutines may complete jobs, dispatch jobs and
+// accept submissions (the `modifies` list is what they may change; `rely` is what they preserve); lifecycle calls are not interleaved (SEQ).
+//@ func worker.WaitUntilFinished
+//@   props C06 C09 C14
+//@   requires w != nil && w.waiters != nil && PoolOK(w) && QM(w) && (forall q ref {$lenOf(q)} :: $lenOf(q) >= 0)
+//@   modifies w.curProcessing, $lenOf, $alloc, linkedlist.Node.next, linkedlist.Node.prev, w.pool.List.len, w.pool.List.$at, w.pool.List.$pos, w.pool.List.$in, key CH:sent<, key CH:rcvd<, key CHV:<, w.$nodes, w.$dispatched, w.$freed
+//@   rely  PoolOK(w) && (forall q ref {$lenOf(q)} :: $lenOf(q) >= 0)
+//@   ensures [barrier-running] w.status == running ==> @sumLen(w.queues.Manager.items, len(w.queues.Manager.items)) <= 0 && w.curProcessing == 0
+//@   ensures [barrier-parked]  (w.status == paused || w.status == stopped) ==> w.curProcessing == 0
+//@   ensures [kept]            PoolOK(w) && (forall q ref {$lenOf(q)} :: $lenOf(q) >= 0)
+//@   ensures [noop]            (w.status == initiated || ((w.status == paused || w.status == stopped) && old(w.curProcessing) == 0)) ==> w.curProcessing == old(w.curProcessing) && w.pool.List.len == old(w.pool.List.len)
+//@   loop 1: invariant PoolOK(w) && (forall q ref {$lenOf(q)} :: $lenOf(q) >= 0)
+//@   loop 1: invariant [noop-initiated] w.status == initiated ==> w.curProcessing == old(w.curProcessing) && w.pool.List.len == old(w.pool.List.len)
+//@   loop 1: invariant [noop-parked]    (w.status == paused || w.status == stopped) && old(w.curProcessing) == 0 ==> w.curProcessing == 0 && w.pool.List.len == old(w.pool.List.len)
+
+// ---------------------------------------------------------------- lifecycle (C14): every call from every invariant state
+// start: from Running it refuses; from Initiated it creates exactly one dispatcher, the reaper (iff idle expiry), the context listener
+// (iff a context), the first idle pool node, stores Running and raises the initial signal. It must not be called from Paused / Stopped.
+//@ func worker.start
+//@   props C14 C02 C03 C18
+//@   requires RI_worker(w) && (w.status == initiated || w.status == running) && w.Configs.idleWorkerExpiryDuration >= 0 && len(w.tickers) < MaxInt
+//@   modifies w.status, $alloc, $spawned, w.$disp, w.$reapers, w.$listeners, w.$nodes, w.tickers, w.tickers[**], key G:$tickersLive, $chan(w.eventLoopSignal),
+//@            linkedlist.Node.next, linkedlist.Node.prev, w.pool.List.len, w.pool.List.$at, w.pool.List.$pos, w.pool.List.$in
+//@   ensures [running]   old(w.status) == running ==> result == ErrRunningWorker && w.status == running && w.$disp == old(w.$disp) && w.pool.List.len == old(w.pool.List.len)
+//@   ensures [started]   old(w.status) == initiated ==> result == nil && w.status == running && w.$disp == 1 && w.pool.List.len == 1 && $len(w.eventLoopSignal) >= 1
+//@   ensures [resources] old(w.status) == initiated ==> w.$reapers == old(w.$reapers) + (w.Configs.idleWorkerExpiryDuration != 0 ? 1 : 0) && w.$nodes == old(w.$nodes) + 1
+//@   ensures [ri]        RI_worker(w)
+
+//@ func worker.Pause
+//@   props C14 C09
+//@   modifies w.status
+//@   ensures [running]   old(w.status) == running ==> result == nil && w.status == paused
+//@   ensures [parked]    (old(w.status) == paused || old(w.status) == stopped) ==> result == nil && w.status == old(w.status)
+//@   ensures [initiated] old(w.status) == initiated ==> result == ErrNotRunningWorker && w.status == initiated
+
+//@ func worker.PauseAndWait
+//@   props C14 C09 C06
+//@   requires w != nil && w.waiters != nil && PoolOK(w) && QM(w) && (forall q ref {$lenOf(q)} :: $lenOf(q) >= 0) && 0 <= w.status && w.status <= stopped
+//@   modifies w.status, w.curProcessing, $lenOf, $alloc, linkedlist.Node.next, linkedlist.Node.prev, w.pool.List.len, w.pool.List.$at, w.pool.List.$pos, w.pool.List.$in, key CH:sent<, key CH:rcvd<, key CHV:<, w.$nodes, w.$dispatched, w.$freed
+//@   ensures [running]   old(w.status) == running ==> result == nil && w.status == paused && w.curProcessing == 0
+//@   ensures [parked]    (old(w.status) == paused || old(w.status) == stopped) ==> result == nil && w.status == old(w.status) && w.curProcessing == 0
+//@   ensures [initiated] old(w.status) == initiated ==> result == ErrNotRunningWorker && w.status == initiated && w.curProcessing == old(w.curProcessing)
+//@   ensures [kept]      PoolOK(w) && (forall q ref {$lenOf(q)} :: $lenOf(q) >= 0)
+
+// Resume: Paused -> Running (and the dispatcher is signalled); Initiated -> start(); Running -> ErrRunningWorker; Stopped -> ErrNotRunningWorker.
+// It never creates a second dispatcher.
+//@ func worker.Resume
+//@   props C14 C09 C02 C03
+//@   requires RI_worker(w) && w.Configs.idleWorkerExpiryDuration >= 0 && len(w.tickers) < MaxInt
+//@   modifies w.status, $alloc, $spawned, w.$disp, w.$reapers, w.$listeners, w.$nodes, w.tickers, w.tickers[**], key G:$tickersLive, $chan(w.eventLoopSignal),
+//@            linkedlist.Node.next, linkedlist.Node.prev, w.pool.List.len, w.pool.List.$at, w.pool.List.$pos, w.pool.List.$in
+//@   ensures [stopped]   old(w.status) == stopped ==> result == ErrNotRunningWorker && w.status == stopped
+//@   ensures [running]   old(w.status) == running ==> result == ErrRunningWorker && w.status == running
+//@   ensures [paused]    old(w.status) == paused ==> result == nil && w.status == running && $len(w.eventLoopSignal) >= 1 && w.$disp == old(w.$disp) && w.$nodes == old(w.$nodes)
+//@   ensures [initiated] old(w.status) == initiated ==> result == nil && w.status == running && w.$disp == 1
+//@   ensures [ri]        RI_worker(w)
+
+// Stop: Running/Paused -> Stopped after waiting for the in-flight jobs; Stopped -> nil; Initiated -> ErrNotRunningWorker. Afterwards the
+// channels are closed and nil, no dispatcher, no ticker and no idle pool node is left and the context (if any) is cancelled: every
+// goroutine the worker started has been told to exit.
+//@ func worker.Stop
+//@   props C14 C18 C09 C06
+//@   requires RI_worker(w) && (forall q ref {$lenOf(q)} :: $lenOf(q) >= 0) && (forall t ref {$tickerStopped[t]} :: $tickerStopped[t] >= 0)
+//@   modifies w.status, w.curProcessing, $lenOf, $alloc, linkedlist.Node.next, linkedlist.Node.prev, w.pool.List.len, w.pool.List.$at, w.pool.List.$pos, w.pool.List.$in,
+//@            key CH:sent<, key CH:rcvd<, key CHV:<, w.$nodes, w.$dispatched, w.$freed, w.tickers, $tickerStopped, w.eventLoopSignal, w.errorChan,
+//@            $open(w.eventLoopSignal), $open(w.errorChan), w.$disp, key G:$poolputs, $usercalls, w.$listeners, w.$armed
+//@   ensures [stopped]   old(w.status) == stopped ==> result == nil && w.status == stopped
+//@   ensures [initiated] old(w.status) == initiated ==> result == ErrNotRunningWorker && w.status == initiated
+//@   ensures [stops]     (old(w.status) == running || old(w.status) == paused) ==> result == nil && w.status == stopped && w.curProcessing == 0
+//@                          && w.eventLoopSignal == nil && w.errorChan == nil && w.$disp == 0 && w.pool.List.len == 0 && len(w.tickers) == 0
+//@   ensures [reapers]   (old(w.status) == running || old(w.status) == paused) ==> w.$reapers == 0
+//@   ensures [ri]        RI_worker(w)
+//@   ghost after call funcvalue when w.$listeners > 0: w.$armed := w.$armed + w.$listeners
+//@   ghost after call funcvalue: w.$listeners := 0
+
+//@ func worker.WaitAndStop
+//@   props C14 C06
+//@   requires RI_worker(w) && (forall q ref {$lenOf(q)} :: $lenOf(q) >= 0) && (forall t ref {$tickerStopped[t]} :: $tickerStopped[t] >= 0)
+//@   modifies w.status, w.curProcessing, $lenOf, $alloc, linkedlist.Node.next, linkedlist.Node.prev, w.pool.List.len, w.pool.List.$at, w.pool.List.$pos, w.pool.List.$in,
+//@            key CH:sent<, key CH:rcvd<, key CHV:<, w.$nodes, w.$dispatched, w.$freed, w.tickers, $tickerStopped, w.eventLoopSignal, w.errorChan,
+//@            $open(w.eventLoopSignal), $open(w.errorChan), w.$disp, key G:$poolputs, $usercalls, w.$listeners, w.$armed
+//@   ensures [stopped]   old(w.status) == stopped ==> result == nil && w.status == stopped
+//@   ensures [initiated] old(w.status) == initiated ==> result == ErrNotRunningWorker && w.status == initiated
+//@   ensures [stops]     (old(w.status) == running || old(w.status) == paused) ==> result == nil && w.status == stopped && w.curProcessing == 0
+//@   ensures [ri]        RI_worker(w)
+
+// Restart: from any state the worker ends up Running with fresh channels, exactly one dispatcher, a fresh context (if configured) whose
+// listener is the only one, and nothing left armed that could stop it behind the caller's back.
+//@ func worker.Restart
+//@   props C14 C18 C02 C09
+//@   requires RI_worker(w) && (forall q ref {$lenOf(q)} :: $lenOf(q) >= 0) && w.Configs.idleWorkerExpiryDuration >= 0 && len(w.tickers) < MaxInt
+//@   modifies w.status, w.curProcessing, $lenOf, $alloc, linkedlist.Node.next, linkedlist.Node.prev, w.pool.List.len, w.pool.List.$at, w.pool.List.$pos, w.pool.List.$in,
+//@            key CH:sent<, key CH:rcvd<, key CHV:<, w.$nodes, w.$dispatched, w.$freed, w.tickers, w.tickers[**], w.eventLoopSignal, w.errorChan, w.ctx, w.cancel,
+//@            $open(w.eventLoopSignal), $open(w.errorChan), w.$disp, key G:$poolputs, $usercalls, w.$listeners, w.$armed, $spawned, w.$reapers, key G:$tickersLive
+//@   ensures [running]  result == nil && w.status == running
+//@   ensures [ri]       RI_worker(w)
+//@   ensures [reapers]  w.$reapers <= 1
+//@   ensures [one]      w.$disp == 1 && w.pool.List.len == 1 && $len(w.eventLoopSignal) >= 1
+//@   ghost after call funcvalue when w.$listeners > 0: w.$armed := w.$armed + w.$listeners
+//@   ghost after call funcvalue: w.$listeners := 0
+
+// TunePool: only a running worker can be tuned; the limit becomes withSafeConcurrency(n); growing raises the signal; shrinking (without
+// idle expiry) retires at most old-new idle workers and never goes below the idle minimum that was available.
+//@ func worker.TunePool
+//@   props C14 C18 C02 C03
+//@   requires RI_worker(w) && w.Configs.minIdleWorkerRatio <= 100 && w.concurrency * w.Configs.minIdleWorkerRatio <= MaxUint32
+//@   modifies w.concurrency, $chan(w.eventLoopSignal), $alloc, linkedlist.Node.next, linkedlist.Node.prev, w.pool.List.len, w.pool.List.$at, w.pool.List.$pos, w.pool.List.$in,
+//@            key CH:sent<, key CH:rcvd<, key CHV:<, key G:$poolputs
+//@   ensures [notrunning] old(w.status) != running ==> result == ErrNotRunningWorker && w.concurrency == old(w.concurrency) && w.pool.List.len == old(w.pool.List.len)
+//@   ensures [tuned]      result == nil ==> w.concurrency >= 1 && w.concurrency != old(w.concurrency) && (concurrency >= 1 && concurrency <= MaxUint32 ==> w.concurrency == concurrency)
+//@   ensures [same]       result == ErrSameConcurrency ==> w.concurrency == old(w.concurrency) && w.pool.List.len == old(w.pool.List.len)
+//@   ensures [grow]       result == nil && w.concurrency > old(w.concurrency) ==> $len(w.eventLoopSignal) >= 1 && w.pool.List.len == old(w.pool.List.len)
+//@   ensures [shrink]     result == nil && w.concurrency < old(w.concurrency) ==> w.pool.List.len <= old(w.pool.List.len) && old(w.pool.List.len) - w.pool.List.len <= old(w.concurrency) - w.concurrency
+//@   ensures [minidle]    result == nil && w.concurrency < old(w.concurrency) ==> w.pool.List.len >= min(old(w.pool.List.len), max((w.concurrency * w.Configs.minIdleWorkerRatio) / 100, 1))
+//@   ensures [ri]         RI_worker(w)
+//@   loop 1: invariant [pool] PoolOK(w) && shrinkPoolSize >= 0 && shrinkPoolSize <= oldConcurrency - safeConcurrency && w.pool.List.len <= old(w.pool.List.len)
+//@                              && old(w.pool.List.len) - w.pool.List.len == (oldConcurrency - safeConcurrency) - shrinkPoolSize
